@@ -9,7 +9,7 @@
    very same function, see alias_every_depth). *)
 From Coq Require Import List NArith ZArith Bool.
 From Dials Require Import Base.Outcome Base.Runes Reflect.Ty Transform.RType Transform.MAlias
-  Transform.Manglers Transform.Transformer Transform.TransformerProofs Transform.AliasProofs
+  Transform.MFlatten Transform.Manglers Transform.Transformer Transform.TransformerProofs Transform.AliasProofs
   Transform.WellFormed Transform.CounterpartSpec Transform.SpecProofs Transform.AliasSpecProofs.
 Import ListNotations.
 
